@@ -235,7 +235,10 @@ func (d *Decoder) readClassDef() (interface{}, error) {
 
 //readTagObject read tag object
 func (d *Decoder) readTagObject() (interface{}, error) {
-	i, _ := d.readInt(_tagRead)
+	i, err := d.readInt(_tagRead)
+	if err != nil {
+		return nil, newCodecError("readTagObject", err)
+	}
 	idx := int(i)
 	clsD := d.clsDefList[idx]
 	typ, ok := d.typMap[clsD.FullClassName]
@@ -271,8 +274,7 @@ func (d *Decoder) readObjectDef() (interface{}, error) {
 
 	tag, err := d.readTag()
 	if err != nil {
-		hlog.Debugf("reading tag err:%v", err)
-		return nil, nil //ignore
+		return nil, newCodecError("readObjectDef", "reading tag", err)
 	}
 
 	if objectLenTag(tag) {
